@@ -306,7 +306,23 @@ def check_preserve(prog: Program, res: Result) -> None:
                     f"{sorted(adds)}", instance=inst)
         # remove_bond ------------------------------------------------------
         fi = prog.resolve_method(K, "remove_bond")
-        st = _stores(fi)
+        # follow the super() chain: a subclass may add its own clean-up
+        chain = [fi]
+        while True:
+            nxt = None
+            for node in ast.walk(chain[-1].node):
+                if isinstance(node, ast.Call) and isinstance(
+                        node.func, ast.Attribute) and node.func.attr == \
+                        "remove_bond" and isinstance(
+                        node.func.value, ast.Call) and call_name(
+                        node.func.value) == "super":
+                    nxt = prog.resolve_method(K, "remove_bond",
+                                              after=chain[-1].cls.name)
+            if nxt is None:
+                break
+            chain.append(nxt)
+        fi = chain[-1]
+        st = [s_ for f_ in chain for s_ in _stores(f_)]
         a1, a2 = fi.params()[1:3]
         dels = [s for s in st if s[0] in ("del", "pop") and s[1] == "_bond_attrs"]
         disc = {(s[2], s[3]) for s in st
@@ -447,6 +463,35 @@ def check_purge(prog: Program, res: Result) -> None:
                         "`atom in <descriptor>.atoms`", instance=inst)
             else:
                 res.ok("R-PURGE", inst, fi.loc())
+
+
+def check_purge_bond(prog: Program, res: Result) -> None:
+    res.rule("R-PURGE-BOND", "remove_bond, resolved for class K, deletes the "
+             "entry of that bond from every bond-keyed stereo slot of K "
+             "(_bond_stereo, _bond_stereo_change): a descriptor keyed by a "
+             "bond that no longer exists makes the stereo view disagree with "
+             "the bond view (subgraph, product, hash and == then raise)")
+    for K in GRAPH_CLASSES:
+        slots = [s for s in prog.all_slots(K)
+                 if s in ("_bond_stereo", "_bond_stereo_change")]
+        if not slots:
+            continue
+        I = Interp(prog)
+        I.call_method(K, "remove_bond", I.input(K, "self"), [IMM, IMM])
+        written = {ev.slot for ev in I.events if ev.kind == "write"}
+        fi = prog.resolve_method(K, "remove_bond")
+        for s in slots:
+            inst = f"{SHORT[K]}.remove_bond purges {s}"
+            if s in written:
+                res.ok("R-PURGE-BOND", inst, fi.loc())
+            else:
+                res.bad("R-PURGE-BOND", f"{K}.remove_bond: {s}", fi.loc(),
+                        f"{inst}: nothing is deleted from {s}; the descriptor "
+                        "/ stereo change keyed by the removed bond stays "
+                        "behind: g.stereo lists a bond that g.bonds does not "
+                        "have, subgraph(all atoms) raises, and for a stereo "
+                        "reaction graph product(), hash() and == raise",
+                        instance=inst)
 
 
 def check_key_centre(prog: Program, res: Result) -> None:
@@ -602,6 +647,7 @@ def run(prog: Program, res: Result, tier: str) -> None:
     check_no_autoviv(prog, res)
     check_preserve(prog, res)
     check_purge(prog, res)
+    check_purge_bond(prog, res)
     check_key_centre(prog, res)
     check_matrix_view(prog, res)
     from ..derive import check_container_kinds
